@@ -49,6 +49,8 @@ def jobs(tier, seed):
     for ch in C.chunks(pairs, 16):
         out.append({'fn': 'catalogue_sequences', 'cfg': {'pairs': ch}})
     out.append({'fn': 'noref_sequences', 'cfg': {}})
+    out.append({'fn': 'noref_fail_then_succeed', 'cfg': {}})
+    out.append({'fn': 'derive_then_divide', 'cfg': {}})
     out.append({'fn': 'interleave', 'cfg': {'first': 5, 'depth': 1, 'canary': True}, 'canary': True})
     LAST_CONFIG_INFO.clear()
     LAST_CONFIG_INFO.update({'declarations': len(DECLS), 'probes': len(PROBES), 'depth': depth,
@@ -226,3 +228,90 @@ def noref_sequences(E, cfg):
                 info=info)
         d = r.amount - p * m
         E.check(E.And(E.is_int(r.amount / q), d < q, -q < d), 'noref-product-value', key='hist:noref-product-value', info=info)
+
+
+def noref_fail_then_succeed(E, cfg):
+    """reference-less result type: an operation that fails for lack of a unit must not influence later
+    operations of the same type pair, and succeeds once the missing unit is declared"""
+    import quantity.predefined as pre
+    from quantity import Quantity, UndefinedResultError
+    from quantity.money import Money
+    eur, usd = Money.register_currency('EUR'), Money.register_currency('USD')
+    PPM = C.mk_cls('PricePerMass', define_as=Money / pre.Mass)
+    eur_kg = PPM.derive_unit_from(eur, pre.KILOGRAM)
+    p = E.rational('p', 'dec')
+    m = E.rational('m', 'dec')
+    E.assume(E.And(p != 0, m != 0))
+    mass_kg, mass_t = Quantity(m, pre.KILOGRAM), Quantity(m, pre.TONNE)
+    order = E.choice('order', ['fail-first', 'succeed-first'])
+    form = E.choice('form', ['qty', 'unit'])
+
+    def failing():
+        if form == 'qty':
+            return Money(p, usd) / mass_kg
+        return usd / pre.KILOGRAM
+
+    def working():
+        if form == 'qty':
+            mon = Money(p, eur)
+            r = mon / mass_kg
+            E.check(type(r) is PPM and r.unit is eur_kg and r.amount == mon.amount / m, 'defined-quotient-after-failed-one',
+                    key='hist:noref-fail-poisons', info=[order, form])
+        else:
+            a_, u_ = eur / pre.KILOGRAM
+            E.check(u_ is eur_kg and a_ == 1, 'defined-unit-quotient-after-failed-one', key='hist:noref-fail-poisons',
+                    info=[order, form])
+    steps = [failing, working] if order == 'fail-first' else [working, failing]
+    for st in steps:
+        if st is failing:
+            C.expect_raises(E, failing, UndefinedResultError, 'quotient-without-unit-undefined', [order, form])
+        else:
+            working()
+    working()
+    usd_kg = PPM.derive_unit_from(usd, pre.KILOGRAM)
+    if form == 'qty':
+        mon = Money(p, usd)
+        r = mon / mass_kg
+        E.check(type(r) is PPM and r.unit is usd_kg and r.amount == mon.amount / m, 'succeeds-once-the-unit-is-declared',
+                key='hist:noref-late-unit', info=[order, form])
+    else:
+        a_, u_ = usd / pre.KILOGRAM
+        E.check(u_ is usd_kg and a_ == 1, 'unit-quotient-succeeds-once-the-unit-is-declared', key='hist:noref-late-unit',
+                info=[order, form])
+
+
+def derive_then_divide(E, cfg):
+    """declaring units by derive_unit_from (types with exponents other than +-1) before or after the first
+    evaluation of the operand pair: same results"""
+    from quantity import Quantity
+    w = _world()
+    V = C.mk_cls('XVel', define_as=w['X'] / w['Y'])
+    ACC = C.mk_cls('XAcc', define_as=w['X'] / w['Y'] ** 2)
+    AR = C.mk_cls('XArY', define_as=w['X'] * w['Y'] ** 2)
+    a = E.rational('a', 'dec')
+    b = E.rational('b', 'frac')
+    E.assume(E.And(a != 0, b != 0))
+    order = E.choice('order', ['declare-first', 'evaluate-first'])
+    qa, qb = Quantity(a, w['x1']), Quantity(b, w['y1'])
+    sx, sy = Fraction(5, 2), Fraction(60)
+    dX, dY = {w['X']: 1}, {w['Y']: 1}
+
+    def evaluate(tag):
+        info = [order, tag]
+        c02._check_result(E, 'derive-x1/y1', lambda: w['x1'] / w['y1'], c02._combine(dX, dY, -1), sx / sy, info)
+        c02._check_result(E, 'derive-qa/qb', lambda: qa / qb, c02._combine(dX, dY, -1), a * sx / (b * sy), info)
+        c02._check_result(E, 'derive-x1*y1', lambda: w['x1'] * w['y1'], c02._combine(dX, dY, 1), sx * sy, info)
+        c02._check_result(E, 'derive-qa*qb', lambda: qa * qb, c02._combine(dX, dY, 1), a * sx * b * sy, info)
+
+    def declare():
+        ACC.derive_unit_from(w['x1'], w['y1'])
+        AR.derive_unit_from(w['x1'], w['y1'])
+    if order == 'declare-first':
+        declare()
+        evaluate('after-declaration')
+    else:
+        evaluate('before-declaration')
+        declare()
+        evaluate('after-declaration')
+    V.derive_unit_from(w['x1'], w['y1'])
+    evaluate('after-velocity-unit')
